@@ -135,6 +135,10 @@ def len_box(prog, adt, idx):
     _CACHE[key] = None
     if not is_private_struct(prog, adt):
         return None
+    emb = embedded_len_box(prog, adt, idx)
+    if emb is not None:
+        _CACHE[key] = emb
+        return emb
     from .oblig import Ctx, seq_len_poly
     lo_hi = None
     for p, bi, s in sites(prog, adt):
@@ -231,3 +235,122 @@ def constructor_facts(prog, adt, self_name="arg1"):
             out.append(g)
     _CACHE[key] = (out, boxes)
     return _CACHE[key]
+
+
+# ---------------------------------------------------------------------- values that only come from embedded data
+def _ty_contains(prog, ty, adt, depth=0):
+    if ty is None or depth > 8:
+        return False
+    k = ty.get("k")
+    if k == "adt":
+        if ty.get("p") == adt:
+            return True
+        a = prog.adts.get(ty.get("p"))
+        if a is not None:
+            for v in a["variants"]:
+                for f in v["fields"]:
+                    if _ty_contains(prog, f["ty"], adt, depth + 1):
+                        return True
+        return any(_ty_contains(prog, x, adt, depth + 1) for x in ty.get("a") or [])
+    if k in ("ref", "slice", "array"):
+        return _ty_contains(prog, ty.get("t"), adt, depth + 1)
+    if k == "tuple":
+        return any(_ty_contains(prog, x, adt, depth + 1) for x in ty.get("ts") or [])
+    return False
+
+
+def _collect_json(prog, ty, js, adt, out, depth=0):
+    """walk a serde_json value along the Rust type it is deserialised into (newtype structs are transparent, Vec and
+    tuples are arrays); append the JSON value of every occurrence of `adt`; return False if the shapes disagree"""
+    if depth > 12 or ty is None:
+        return False
+    k = ty.get("k")
+    if k == "adt":
+        p = ty.get("p")
+        if p == adt:
+            out.append(js)
+        a = prog.adts.get(p)
+        if a is not None:
+            if a["kind"] != "struct":
+                return p != adt and not _ty_contains(prog, ty, adt)
+            fs = a["variants"][0]["fields"]
+            if len(fs) == 1 and fs[0]["name"] == "0":
+                return _collect_json(prog, fs[0]["ty"], js, adt, out, depth + 1)
+            return not _ty_contains(prog, ty, adt) or p == adt
+        if p == "std::vec::Vec":
+            if not isinstance(js, list):
+                return False
+            return all(_collect_json(prog, ty["a"][0], x, adt, out, depth + 1) for x in js)
+        return not _ty_contains(prog, ty, adt)
+    if k == "tuple":
+        ts = ty.get("ts") or []
+        if not isinstance(js, list) or len(js) != len(ts):
+            return False
+        return all(_collect_json(prog, t, x, adt, out, depth + 1) for t, x in zip(ts, js))
+    return True
+
+
+def embedded_values(prog, adt):
+    """If every value of the private struct `adt` is produced by deserialising byte constants embedded in the program
+    (serde-derived constructors only; every serde_json entry point whose target type contains `adt` is a lazy_static
+    initialiser reading a `const` byte string), return the list of JSON values of all its occurrences; else None."""
+    key = ("embedded", id(prog), adt)
+    if key in _CACHE:
+        return _CACHE[key]
+    _CACHE[key] = None
+    import json as _json
+    a = prog.adts.get(adt)
+    if a is None or a.get("is_pub") and not is_private_struct(prog, adt):
+        return None
+    ss = sites(prog, adt)
+    if not ss or not all("_serde::" in p for p, _, _ in ss):
+        return None
+    vals = []
+    n_roots = 0
+    for p, body in prog.bodies.items():
+        if "_serde::" in p or "::tests::" in p:
+            continue
+        for bb, t in body.calls():
+            c = t.get("resolved") or t.get("callee") or ""
+            if not (c.startswith("serde_json::") or "Deserialize" in c or c.startswith("serde::")):
+                continue
+            ga = t.get("gargs") or []
+            if any(g is None for g in ga):
+                return None
+            tys = [g for g in ga if _ty_contains(prog, g, adt)]
+            if not tys:
+                continue
+            if "__static_ref_initialize" not in p or short(c) not in ("serde_json::from_slice", "de::from_slice") or len(t["args"]) != 1:
+                return None
+            an = analysis(prog, body)
+            arg = unmut(an.terms.operand(t["args"][0]))
+            while arg[0] in ("ref", "deref", "cast"):
+                arg = unmut(arg[1] if arg[0] != "cast" else arg[2])
+            if arg[0] != "cdef":
+                return None
+            cst = prog.consts.get(arg[1]) or {}
+            lit = cst.get("lit") or {}
+            if lit.get("k") != "bytes":
+                return None
+            try:
+                js = _json.loads(bytes(lit["v"]).decode("utf-8"))
+            except Exception:
+                return None
+            if not _collect_json(prog, tys[0], js, adt, vals):
+                return None
+            n_roots += 1
+    if not n_roots:
+        return None
+    _CACHE[key] = vals
+    return vals
+
+
+def embedded_len_box(prog, adt, idx):
+    """length range of the Vec held by the newtype struct `adt` over all embedded values"""
+    a = prog.adts.get(adt)
+    if a is None or a["kind"] != "struct" or idx != 0 or len(a["variants"][0]["fields"]) != 1:
+        return None
+    vals = embedded_values(prog, adt)
+    if not vals or not all(isinstance(v, list) for v in vals):
+        return None
+    return (min(len(v) for v in vals), max(len(v) for v in vals))
